@@ -28,8 +28,8 @@ ASSUMPTIONS = [
 ]
 TOLERANCES = {"registration": "1e-12 * max|field| at level 0", "nesting": "(1e-12+4096 eps G) * max|spectrum|", "coordinates": "1e-12 * domain"}
 BUDGET = {
-    "quick": dict(examples=150, shards=1, enum_procs=8),
-    "thorough": dict(examples=1500, shards=16, enum_procs=16),
+    "quick": dict(examples=300, shards=1, enum_procs=8),
+    "thorough": dict(examples=6000, shards=16, enum_procs=16),
 }
 ENUM_EXHAUSTIVE = True
 
